@@ -41,10 +41,20 @@ class Flags(set):
     """Side channel: mechanisms the evaluation touched (used as finding triggers)."""
 
 
+LOCAL_ZONE = None      # set by a check whose stored values are wall-clock times of this zone
+
+
 def parse_dt(s):
     s = s.replace("t", "T")
     if s.endswith(("Z", "z")) or "+" in s[10:] or "-" in s[11:]:
-        return UNSPEC   # offsets vs naive stored values: not pinned
+        if LOCAL_ZONE is None or "." in s:
+            return UNSPEC   # offsets vs naive stored values: not pinned
+        from zoneinfo import ZoneInfo
+        try:
+            aware = dt.datetime.fromisoformat(s[:-1] + "+00:00" if s.endswith(("Z", "z")) else s)
+            return aware.astimezone(ZoneInfo(LOCAL_ZONE)).replace(tzinfo=None)
+        except (ValueError, OverflowError):
+            return UNSPEC
     fmt = "%Y-%m-%dT%H:%M:%S" if s.count(":") == 2 else "%Y-%m-%dT%H:%M"
     if "." in s:
         return UNSPEC   # fractional seconds
@@ -57,8 +67,11 @@ def parse_duration(s):
     if not m:
         return UNSPEC    # years / months: calendar arithmetic is engine specific
     sign, d, h, mi, sec = m.groups()
-    td = dt.timedelta(days=int(d or 0), hours=int(h or 0), minutes=int(mi or 0),
-                      seconds=float(sec or 0))
+    whole, _, frac = (sec or "0").partition(".")
+    if len(frac) > 6:
+        return UNSPEC    # finer than a microsecond: not representable by the ORMs' value type
+    td = dt.timedelta(days=int(d or 0), hours=int(h or 0), minutes=int(mi or 0), seconds=int(whole),
+                      microseconds=int((frac + "000000")[:6]))
     return -td if sign == "-" else td
 
 
